@@ -217,12 +217,13 @@ static void File_Close(var self) {
     throw(IOError, "Cannot close file - no file open.");
   }
   
+  /* the stream is gone whatever fclose reports: never close it again */
   int err = fclose(f->file);
+  f->file = NULL;
+  
   if (err != 0) {
     throw(IOError, "Failed to close file: %i", $I(err));
   }
-  
-  f->file = NULL;
 }
 
 static void File_Seek(var self, int64_t pos, int origin) {
@@ -418,12 +419,13 @@ static void Process_Close(var self) {
     throw(IOError, "Cannot close process - no process open.");
   }
   
+  /* the stream is gone whatever pclose reports: never close it again */
   int err = pclose(p->proc);
+  p->proc = NULL;
+  
   if (err != 0) {
     throw(IOError, "Failed to close process: %i", $I(err));
   }
-  
-  p->proc = NULL;
 }
 
 static void Process_Seek(var self, int64_t pos, int origin) {
